@@ -1,0 +1,74 @@
+//! A small insertion-ordered map. Iteration follows the order in which entries were read from the
+//! document, so the generated code does not depend on the hash seed of the process.
+
+use std::borrow::Borrow;
+
+#[derive(Debug)]
+pub struct OrderedMap<K, V> {
+    entries: Vec<(K, V)>,
+}
+
+impl<K, V> Default for OrderedMap<K, V> {
+    fn default() -> Self {
+        OrderedMap { entries: Vec::new() }
+    }
+}
+
+impl<K, V> OrderedMap<K, V>
+where
+    K: PartialEq,
+{
+    /// Inserts a value. An existing key keeps its position and gets the new value.
+    pub fn insert(&mut self, key: K, value: V) -> Option<V> {
+        if let Some((_, existing)) = self.entries.iter_mut().find(|(k, _)| *k == key) {
+            return Some(std::mem::replace(existing, value));
+        }
+        self.entries.push((key, value));
+        None
+    }
+
+    pub fn get<Q>(&self, key: &Q) -> Option<&V>
+    where
+        K: Borrow<Q>,
+        Q: PartialEq + ?Sized,
+    {
+        self.entries.iter().find(|(k, _)| k.borrow() == key).map(|(_, v)| v)
+    }
+
+    pub fn len(&self) -> usize {
+        self.entries.len()
+    }
+
+    pub fn is_empty(&self) -> bool {
+        self.entries.is_empty()
+    }
+
+    pub fn iter(&self) -> impl Iterator<Item = (&K, &V)> {
+        self.entries.iter().map(|(k, v)| (k, v))
+    }
+}
+
+impl<K, V> FromIterator<(K, V)> for OrderedMap<K, V>
+where
+    K: PartialEq,
+{
+    fn from_iter<I: IntoIterator<Item = (K, V)>>(iter: I) -> Self {
+        let mut map = OrderedMap::default();
+        for (key, value) in iter {
+            map.insert(key, value);
+        }
+        map
+    }
+}
+
+impl<'a, K, V> IntoIterator for &'a OrderedMap<K, V> {
+    type Item = (&'a K, &'a V);
+    type IntoIter = std::iter::Map<std::slice::Iter<'a, (K, V)>, fn(&'a (K, V)) -> (&'a K, &'a V)>;
+
+    fn into_iter(self) -> Self::IntoIter {
+        fn split<K, V>(entry: &(K, V)) -> (&K, &V) {
+            (&entry.0, &entry.1)
+        }
+        self.entries.iter().map(split::<K, V> as fn(&'a (K, V)) -> (&'a K, &'a V))
+    }
+}
